@@ -221,6 +221,36 @@ theorem isGRPCWeb_iff (ct : Bytes) : isGRPCWebContentType ct = true ↔ BeginsWi
     · rw [hd, List.length_append]; omega
     · rw [hd, ← hlen, List.take_left']; exact hf; rfl
 
+/-- whatever follows a value that begins with `p` — whitespace, parameters, garbage — it still begins with `p` -/
+theorem begins_append (v p tail : Bytes) (h : BeginsWithFold v p) : BeginsWithFold (v ++ tail) p := by
+  obtain ⟨a, rest, hd, hf⟩ := h
+  exact ⟨a, rest ++ tail, by rw [hd, List.append_assoc], hf⟩
+
+theorem semi_not_in_base : (59 : UInt8) ∉ lower grpcWebBase := by decide
+/-- a media type that does not begin with `application/grpc-web` cannot be made to by ANY parameter string:
+    the `;` that ends the media type is not a character of `application/grpc-web`. -/
+theorem not_begins_params (mt params : Bytes) (h : ¬ BeginsWithFold mt grpcWebBase) :
+    ¬ BeginsWithFold (mt ++ 59 :: params) grpcWebBase := by
+  rintro ⟨a, rest, hd, hf⟩
+  have hf' := hf
+  unfold equalFold at hf'
+  simp only [Bool.and_eq_true, beq_iff_eq] at hf'
+  by_cases hl : a.length ≤ mt.length
+  · -- then `a` is a prefix of `mt`
+    apply h
+    have h1 : a = (mt ++ 59 :: params).take a.length := by rw [hd]; simp
+    rw [List.take_append_of_le_length hl] at h1
+    exact ⟨a, mt.drop a.length, by rw [h1, List.length_take, Nat.min_eq_left hl, List.take_append_drop], hf⟩
+  · -- otherwise `a` reaches the `;`
+    have hl' : mt.length < a.length := Nat.lt_of_not_ge hl
+    have h1 : (a ++ rest)[mt.length]? = some 59 := by rw [← hd]; simp
+    have h2 : a[mt.length]? = some 59 := by
+      rw [List.getElem?_append_left hl'] at h1; exact h1
+    have h3 : (59 : UInt8) ∈ a := List.mem_of_getElem? h2
+    have h4 : lowerB 59 ∈ lower a := List.mem_map_of_mem h3
+    rw [hf'.2] at h4
+    exact semi_not_in_base (by simpa [lowerB] using h4)
+
 /-! ### parseMetadataQuery -/
 
 theorem lookup_put (md : MD) (k k' : Bytes) (v : List Bytes) :
